@@ -126,3 +126,74 @@ def main():
 
 if __name__ == "__main__":
     main()
+
+
+# ---------------------------------------------------------------------------------------------------------------------
+# unit forward_shift: the 80 shift operator impls generated by impl_shift! for the ten primitive amount types
+SHIFT_TYPES = ["usize", "u8", "u16", "u32", "u64", "isize", "i8", "i16", "i32", "i64"]
+
+
+def main_shift():
+    out = []
+    w = out.append
+    w("// unit forward_shift: the shift operator impls generated for each primitive amount type (src/bits.rs impl_shift!) forward to")
+    w("// wrapping_shl / wrapping_shr with the amount cast to usize  (C05, C20)")
+    w("// GENERATED skeleton (vf/genforward.py main_shift) - the item bodies are re-extracted from the macro-expanded crate on every run.")
+    w("// N15 places each trait-impl method in an inherent impl under a mangled name; the nested operator uses inside the `&T` and")
+    w("// compound-assignment forms (`<Self>::shl(self, *rhs)`, `*self << rhs`) are resolved by hand to the impl rustc's trait")
+    w("// selection picks from the operand types (declared rewrites, listed per item).")
+    w("#![allow(non_snake_case, non_camel_case_types)]")
+    w("use vstd::prelude::*;")
+    w("verus! {")
+    w("//@ extract src/lib.rs struct Uint")
+    w("pub struct Uint<const BITS: usize, const LIMBS: usize> { pub\n    limbs: [u64; LIMBS],\n}")
+    w("//@ end")
+    w("impl<const BITS: usize, const LIMBS: usize> Clone for %s { fn clone(&self) -> (r: Self) ensures r == *self { Uint { limbs: self.limbs } } }" % U)
+    w("impl<const BITS: usize, const LIMBS: usize> Copy for %s {}" % U)
+    w("")
+    for m in ("wrapping_shl", "wrapping_shr"):
+        w("pub uninterp spec fn spec_%s<const BITS: usize, const LIMBS: usize>(a: %s, p0: usize) -> %s;" % (m, U, U))
+    w("")
+    w("impl<const BITS: usize, const LIMBS: usize> %s {" % U)
+    for m in ("wrapping_shl", "wrapping_shr"):
+        w("    #[verifier::external_body]")
+        w("    pub fn %s(self, rhs: usize) -> (r: Self)" % m)
+        w("        ensures r == spec_%s(self, rhs)" % m)
+        w("    { unimplemented!() }")
+    w("")
+    for T in SHIFT_TYPES:
+        signed = T.startswith("i")
+        pre = "rhs >= 0 ==> " if signed else ""
+        prer = "*rhs >= 0 ==> " if signed else ""
+        for (Tr, f, d) in (("Shl", "shl", "wrapping_shl"), ("Shr", "shr", "wrapping_shr")):
+            val = "%s_%s_val__%s" % (Tr, T, f)
+            ref = "%s_%s_ref__%s" % (Tr, T, f)
+            aval = "%sAssign_%s_val__%s_assign" % (Tr, T, f)
+            aref = "%sAssign_%s_ref__%s_assign" % (Tr, T, f)
+            op = "<<" if f == "shl" else ">>"
+            w('//@ extract expanded fn %s ctx=">%s<%s>forUint<BITS,LIMBS>" vis=none as=%s rewrite="-> Self :: Output" => "-> Uint<BITS, LIMBS>" #1' % (f, Tr, T, val))
+            w("    fn %s(self, rhs: %s) -> (r: Uint<BITS, LIMBS>)" % (val, T))
+            w("        ensures %sr == spec_%s(self, rhs as usize)" % (pre, d))
+            w("    { PLACEHOLDER }")
+            w("//@ end")
+            w('//@ extract expanded fn %s ctx=">%s<&%s>forUint<BITS,LIMBS>" vis=none as=%s rewrite="-> Self :: Output" => "-> Uint<BITS, LIMBS>" #1 rewrite="< Self > :: shl ( self , * rhs )" => "Self::Shl_%s_val__shl(self, *rhs)" #? rewrite="< Self > :: shr ( self , * rhs )" => "Self::Shr_%s_val__shr(self, *rhs)" #?' % (f, Tr, T, ref, T, T))
+            w("    fn %s(self, rhs: &%s) -> (r: Uint<BITS, LIMBS>)" % (ref, T))
+            w("        ensures %sr == spec_%s(self, *rhs as usize)" % (prer, d))
+            w("    { PLACEHOLDER }")
+            w("//@ end")
+            w('//@ extract expanded fn %s_assign ctx=">%sAssign<%s>forUint<BITS,LIMBS>" vis=none as=%s rewrite="* self << rhs" => "Self::Shl_%s_val__shl(*self, rhs)" #? rewrite="* self >> rhs" => "Self::Shr_%s_val__shr(*self, rhs)" #?' % (f, Tr, T, aval, T, T))
+            w("    fn %s(&mut self, rhs: %s)" % (aval, T))
+            w("        ensures %s*final(self) == spec_%s(*old(self), rhs as usize)" % (pre, d))
+            w("    { PLACEHOLDER }")
+            w("//@ end")
+            w('//@ extract expanded fn %s_assign ctx=">%sAssign<&%s>forUint<BITS,LIMBS>" vis=none as=%s rewrite="* self << rhs" => "Self::Shl_%s_ref__shl(*self, rhs)" #? rewrite="* self >> rhs" => "Self::Shr_%s_ref__shr(*self, rhs)" #?' % (f, Tr, T, aref, T, T))
+            w("    fn %s(&mut self, rhs: &%s)" % (aref, T))
+            w("        ensures %s*final(self) == spec_%s(*old(self), *rhs as usize)" % (prer, d))
+            w("    { PLACEHOLDER }")
+            w("//@ end")
+    w("}")
+    w("")
+    w("} // verus!")
+    w("fn main() {}")
+    open(os.path.join(HERE, "units", "forward_shift.rs"), "w").write("\n".join(out) + "\n")
+    print("wrote units/forward_shift.rs")
